@@ -70,7 +70,7 @@ pub fn plan(_tier: Tier) -> Plan {
         rule: "Histories in which 70% of the connections register a will (topic with 0..n matching subscribers, QoS 0-2, optionally retained), sessions end by DISCONNECT or by link failure, and the PublishWill signal of the connection task is delivered 0, 1 or several times afterwards (also for clients without a will). The will is an accepted message of the reference model exactly when the connection ended without DISCONNECT and only once, so the delivery oracle of C01 (exactly the matching subscribers, once, right topic/payload, retained copy visible to later subscribers) decides the property. Takeovers are not generated (outside the claim). Non-trivial: >=1 will published and forwarded to >=1 subscriber. ".to_string() + crate::fullstack::props::C16_E5_RULE,
         assumptions: vec![
             "E4 delivers the PublishWill event the way remote() does after the will delay; whether remote() sends it is checked by the E5 campaigns (real per-connection task over an in-memory stream, barrier-synchronised)".into(),
-            "Known finding F3 (a DISCONNECT is not read while a write towards the client is pending or failing, so the will fires) is kept out of the main E5 campaign by construction and probed".into(),
+            "F3 (a DISCONNECT was not read while a write towards the client was pending or failing, so the will fired) was repaired in /repo; the end kind is generated in the main E5 campaign and the former probe is a focused campaign".into(),
         ],
         min_nontrivial: 100,
     }
